@@ -816,6 +816,12 @@ impl<'a, 'b, 'o> SemGen<'a, 'b, 'o> {
             let ne = 1 + self.t.weighted(&[40, 40, 20]);
             (0..ne)
               .map(|_| {
+                // occasionally a reference to a later group rule (nested group references, nested generics)
+                if self.o.map_group_refs && self.t.chance(1, 6) {
+                  if let Some((name, args)) = self.group_ref(d) {
+                    return Ent { occ: None, kind: EntKind::Ref { name, args } };
+                  }
+                }
                 let l = self.map_key_lit(&mut used);
                 let key = match &l {
                   Lit::Text { v, .. } if is_bareword(v) => Key::Bare(v.clone()),
